@@ -182,7 +182,8 @@ func (t *TicketID) Decode(d *Decoder) error {
 func (t *TicketAttempt) Decode(d *Decoder) error {
 	cLog(Cyan, "Decoding TicketAttempt")
 
-	val, err := d.DecodeLength()
+	// a compact natural that is a value, not a length prefix: no relation to the remaining input
+	val, err := d.DecodeInteger()
 	if err != nil {
 		return err
 	}
@@ -913,7 +914,8 @@ func (w *WorkReport) Decode(d *Decoder) error {
 
 	// Work report core index is compact
 	// https://github.com/davxy/jam-test-vectors/commit/fed98559dabaa7058d7f9d83cb8c9353bd78d544
-	coreIndex, err := d.DecodeLength()
+	// (a value, not a length prefix: DecodeInteger, which does not compare it with the remaining input)
+	coreIndex, err := d.DecodeInteger()
 	if err != nil {
 		return err
 	}
